@@ -393,12 +393,16 @@ func Yield(site uint32, class int) {
 	}
 	t := w.cur
 	src := t.src
-	if src == nil || t.hung || t.child {
-		// only pre-empt inside API calls, not while a hung call is being unwound, and not inside
-		// goroutines the library started: those give the baton away only by blocking or ending
-		// (their pre-emptions would have to be recorded per child to replay; the spawner's own
-		// yields can still hand the baton to a child or to another caller)
+	if src == nil || t.hung || (t.child && !w.inRun) {
+		// only pre-empt inside API calls and not while a hung call is being unwound.  Goroutines the
+		// library started are pre-empted like any task in concurrent worlds (their switches are
+		// recorded in the source of the call that started them, marked with their task number); in
+		// single-caller worlds there is no scheduler and they give the baton away by blocking or ending
 		return
+	}
+	from := int8(0)
+	if t.child {
+		from = int8(t.id + 1)
 	}
 	w.Stats.Yields++
 	cy := t.callYields
@@ -409,10 +413,10 @@ func Yield(site uint32, class int) {
 	var next *Task
 	switch w.Cfg.Sched {
 	case SchedReplay:
-		for src.swPos < len(src.Switches) && src.Switches[src.swPos].Yield < cy {
+		for src.swPos < len(src.Switches) && src.Switches[src.swPos].From == from && src.Switches[src.swPos].Yield < cy {
 			src.swPos++
 		}
-		if src.swPos < len(src.Switches) && src.Switches[src.swPos].Yield == cy {
+		if src.swPos < len(src.Switches) && src.Switches[src.swPos].From == from && src.Switches[src.swPos].Yield == cy {
 			want := int(src.Switches[src.swPos].To)
 			src.swPos++
 			for _, o := range w.tasks {
@@ -425,7 +429,7 @@ func Yield(site uint32, class int) {
 			}
 		}
 		if next != nil {
-			src.EffSwitches = append(src.EffSwitches, Switch{Yield: cy, To: int8(next.id)})
+			src.EffSwitches = append(src.EffSwitches, Switch{Yield: cy, To: int8(next.id), From: from})
 			w.switchTo(t, next, site)
 		}
 		return
@@ -448,7 +452,7 @@ func Yield(site uint32, class int) {
 	if next == nil || next == t {
 		return
 	}
-	src.Switches = append(src.Switches, Switch{Yield: cy, To: int8(next.id)})
+	src.Switches = append(src.Switches, Switch{Yield: cy, To: int8(next.id), From: from})
 	w.switchTo(t, next, site)
 }
 
